@@ -207,6 +207,13 @@ def cover(F, res, cg):
                         break
         if row is None and ps is not None and stale_rows.get(sig(key)):
             row = stale_rows[sig(key)][0]
+        if row is None and es is not None:
+            # the error a function raises in its own body, discharged by a premise on its callers (kind "facade"): the row
+            # speaks for whatever error that function itself builds once its own site is gone (variant or message reworded)
+            own = _re.sub(r"(::\{closure#\d+\})+$", "", key.split("|")[0])
+            for k2, r2 in rows.items():
+                if r2.get("kind") == "facade" and k2 not in site_keys and k2.split("|")[0] == own:
+                    row = r2
         if row is None:
             what = ("`%s` in the lowering" % (ps.what if ps.kind != "K4" else "indexing")) if ps is not None else "lowering::Error::%s(%r)" % (es[0], es[1])
             res.add([finding("COVER", key, w, "%s has no covering analyzer diagnostic: a program can pass analysis and fail (or panic) here" % what)])
